@@ -527,6 +527,12 @@ func monitorEvent(w *liveWatcher, e state.Event, res *scenarioResult) {
 		res.problems = append(res.problems, fmt.Sprintf("leak: single watch on %q got event for %q", w.id, md.ID()))
 	}
 
+	// C12: every event of the live part of a kind watch carries a bookmark to resume from (the snapshot part of a
+	// bootstrapped watch does not)
+	if w.mode != "single" && (!w.bootstrap || w.bootDone) && len(e.Bookmark) == 0 {
+		res.problems = append(res.problems, fmt.Sprintf("no-bookmark: live %v event for %q delivered without a bookmark: a consumer cannot resume after it", e.Type, md.ID()))
+	}
+
 	if len(e.Bookmark) == 16 {
 		p := int64(binary.BigEndian.Uint64(e.Bookmark[8:]))
 		if w.haveBm && p <= w.lastBm {
